@@ -11,7 +11,7 @@ CHECKS = {
          "Trusts the reference semantics of DESIGN.md §4.2 and the harness's GRL printer; assumes rank-order consideration within passes (checked by C02/C03; a contradicting run is not judged and makes the check inconclusive). Says nothing about plugins, functions, pattern CEs, method calls.",
          "DESIGN.md §5 C01"),
  "C02": ("exploration",
-         "online trace monitors (one per clause: order, enable/date/focus, no-loop, activation group, lock-on-active) over call histories on one engine",
+         "online trace monitors (one per clause: order, enable/date/focus, no-loop, activation group, lock-on-active) over call histories on one engine; pass heads and the engine's own agenda focus come from guarded hook events (ForwardPass, AgendaFocus)",
          "Histories of execute_at_time / execute / focus / activation / reset / enable calls run on one real engine; firings are observed through a custom action handler that every generated rule calls last (with a fact snapshot), pass boundaries through hook H2, focus through get_active_agenda_group at every call boundary. Each clause of the statement is an upper-bound or ordering monitor over that trace; the activation-group 'highest' clause is judged with the reference evaluator on the snapshot at the higher-ranked member's turn. Held = no event of any explored history broke a clause.",
          "Attributes are set on parsed Rule objects, not via GRL attribute syntax (C04 owns that). Readings the statement leaves open are accepted (activation taking effect immediately or at the next pass; firing exactly at the expiry instant). Upper-bound clauses cannot see a rule that wrongly never fires (C01/C03 do).",
          "DESIGN.md §5 C02"),
@@ -111,7 +111,7 @@ CHECKS = {
 # workload extensions made after the seeded rounds, appended to the level text (DESIGN.md §5 "Extended ..." paragraphs)
 EXTRA = {
  "C02": " Also driven: whole-knowledge-base replacement, timeouts expiring inside a slow action, date windows given as RFC 3339 text at a UTC offset, calls that return Err in mid-pass on an injected action failure, 21-32 rule cases.",
- "C03": " Also driven: knowledge-base edits between calls, agenda groups handing the focus around (bound clauses only), remainder / quotient by a fact that is or becomes 0, extreme saliences, empty stores.",
+ "C03": " Also driven: an undo frame held open on the fact store by the caller, knowledge-base edits between calls, agenda groups handing the focus around (bound clauses only), remainder / quotient by a fact that is or becomes 0, extreme saliences, empty stores.",
  "C06": " Also driven: histories of 40-200 operations over up to 150 facts, working_memory_mut().clear(), integers at and beyond the ends of i64.",
  "C07": " Also driven: matched fact handles on agenda activations, auto_focus and ruleflow groups, and the firing order of the closure-driven engines with 1-80 no-loop rules and tied saliences (exact order).",
  "C09": " A query that panics where bounded completeness demands \"provable\" is a violation of that clause, elsewhere no verdict. Also driven: goal spellings (spacing, exponent forms), field names beginning with NOT, string values wrapped in quote characters or ending in an operator token.",
